@@ -5,7 +5,7 @@ MANIFEST = {
             "map-as-set) instantiated with the thread programs of Changes.Fetch and Changes.FileChanged REGENERATED from x/watcher/changes.go on "
             "every run, for ANY number of producer and consumer threads started at any time and every interleaving: invariants proved by "
             "induction over steps (C40_fetched_was_reported, C40_returned_is_fetched, C40_at_most_once_per_report, "
-            "C40_reported_pending_or_fetched, C40_no_lost_wakeup, C40_set_nodup, C40_mutex, C40_no_panic) and liveness as enabledness "
+            "C40_reported_pending_or_fetched, C40_no_lost_wakeup, C40_frame (only NewChanges/Fetch/FileChanged touch the set or the cond: table regenerated from every function of the file), C40_set_nodup, C40_mutex, C40_no_panic) and liveness as enabledness "
             "(C40_waiting_fetch_progress, C40_progress: deadlock freedom). FULL statement on the model; the model is tied to the code by the "
             "translator, a lock-discipline check, a differential run (path.Dir, sequential op sequences incl. Fetch blocking on the empty set, "
             "linearised concurrent histories accepted by the same model) and a property oracle on concurrent stress histories of the real code.",
